@@ -40,7 +40,7 @@ def declare(reg):
     reg.classes['Ctx'] = {
         'mro': ['tatsu/contexts/context.py:ParseContext', 'tatsu/contexts/engine.py:ParserEngine',
                 'tatsu/contexts/core.py:ParserCore'],
-        'fields': {'states': 'States', 'world': 'int', 'tracer': 'opaque:Tracer', '_active_config': 'ConfigR',
+        'fields': {'states': 'States', 'tracer': 'opaque:Tracer', '_active_config': 'ConfigR',
                    'keywords': 'strset', 'semantics': 'opaque:Semantics'},
         'wf': ['len(self.states.state_stack) >= 1'],
         'isa': ['Ctx', 'ParseContext', 'ParserEngine', 'ParserCore'],
@@ -56,6 +56,7 @@ def declare(reg):
         reg.opaque_attrs[('Tracer', m)] = ('method', 'NOOP')
     reg.exc_attrs.update({'pos': 'int'})
 
+    reg.import_consts = {'_AT_': 'tatsu/contexts/state.py'}
     reg.class_alias = {
         'ParseState': 'Frame', 'AST': 'ASTD', 'Alert': 'AlertR', 'RuleInfo': 'RuleInfoR',
         'MemoKey': 'MemoKeyR', 'RuleResult': 'RuleResultR', 'ParseStateStack': 'States',
